@@ -206,6 +206,10 @@ func unknownCalleeStores(p *core.Prog, cur *ssa.Function) map[*types.Var]bool {
 		if rootFn(fn) == rootFn(cur) {
 			continue
 		}
+		// a helper that only the analysed function calls is part of it (its code is expanded in the analysed view)
+		if onlyCalledFrom(p, rootFn(fn), map[*ssa.Function]bool{rootFn(cur): true}) {
+			continue
+		}
 		sx.Instrs(fn, func(in ssa.Instruction) {
 			if st, ok := in.(*ssa.Store); ok {
 				if fa, ok := st.Addr.(*ssa.FieldAddr); ok {
